@@ -271,6 +271,24 @@ pub fn run(args: &Args) -> i32 {
         check_stream(&stream, usize::MAX, json!({"scaler_cut": cut, "tail": idx % 3}), loc);
     });
 
+    // 5. the same split invariance at the level of the program that consumes the parser: the stream of
+    //    C20's hardware model cut into banks / events / files must give the same rows as the uncut stream
+    {
+        use crate::props::c20::{conform, model_stream, Layout};
+        use crate::refmodel::midas::BankFmt;
+        let words = model_stream(&[1, 7, 6, 3, 1], 2);
+        let nbytes = crate::props::c20::encode_words(&words).len() as u64;
+        rep.run("program-level-cuts", (nbytes + 1) * 3, 120, true, "alpha-g-chronobox-timestamps on a 5-region stream (edges, scaler blocks) cut at every byte position into two banks x {1 bank per event in 3 files, 2 banks per event in 1 file, 3 pieces (second cut 7 bytes later) in 2 files}: rows and times against the reference", |idx, loc| {
+            let cut = (idx / 3) as usize;
+            let lay = match idx % 3 {
+                0 => Layout { cuts: vec![vec![cut]], banks_per_event: 1, files: 3, fmt: BankFmt::B32, lz4: false, decoys: false },
+                1 => Layout { cuts: vec![vec![cut]], banks_per_event: 2, files: 1, fmt: BankFmt::B16, lz4: false, decoys: true },
+                _ => Layout { cuts: vec![vec![cut, cut + 7]], banks_per_event: 1, files: 2, fmt: BankFmt::B32A, lz4: true, decoys: false },
+            };
+            conform(&[words.clone()], &lay, json!({"cut_at": cut, "layout": idx % 3}), &format!("c07p{idx}"), loc);
+        });
+    }
+
     let states = rep.get_extra("states");
     let transitions = rep.get_extra("transitions");
     rep.cov("states", json!(states));
